@@ -5,12 +5,13 @@
    ContractionTree.compressed_contract_stats), tied to /repo by harness/props/c20.py, which
    compares every tracker field and the whole hypergraph after every step.
 
-   The three "uncapped = exact" statements are proved below in the form: the tracker's flops,
-   write and max are the sums / maximum of the tree rule's figures (Net.v node_flops / node_size)
-   over the trees the run builds, one per step (run_trees: the tree of a step is Node ti tj for
-   the two live nodes the traversal names).  The check evaluates, for every uncapped run it
-   compares, that these trees have exactly the leaf sets the real traversal lists, so the sums
-   are the sums over the nodes of the user's tree.  Without the no-dangling hypothesis the flops
+   The three "uncapped = exact" statements are proved below twice: as sums over the trees the run
+   builds (C20_uncapped_exact_steps, any traversal with ids_ok) and, composed with a proof that
+   for any children-first order of a complete tree t the run builds exactly the nodes of t, in
+   terms of Net.v's total_flops / total_write / max_size of the SAME tree
+   (C20_uncapped_eq_exact_same_tree).  The check evaluates in Coq, for every uncapped run it
+   compares, that the real traversal is a valid_order of the real tree and that the triples fed
+   to the model are plr_of_list of it.  Without the no-dangling hypothesis the flops
    statement is FALSE of the faithful model (finding compressed-flops-dangling-index, see the
    Example at the end).
    Hypotheses that appear below and how they are met: `forall t, In t (inputs n) -> NoDup t` is
@@ -19,7 +20,7 @@
    live nodes -- it is evaluated inside Coq for every run the check compares. *)
 From Coq Require Import Lia Permutation.
 From Ctg Require Import Base Net HGraph Compressed BaseFacts NetFacts HGraphFacts CompressedFacts CompressedPeakFacts
-                        HGraphTreeFacts CompressedExactFacts.
+                        HGraphTreeFacts CompressedExactFacts ExecOrderFacts CompressedTreeFacts.
 
 (* which edges are merged / which nodes exist / which identifiers are handed out never depends
    on sizes or on the cap: runs with any two caps stay in lock-step after every prefix *)
@@ -101,6 +102,47 @@ Theorem C20_uncapped_exact_steps : forall n, (forall t, In t (inputs n) -> NoDup
   t_max t = max_sizes_of n ts (zmax_list (input_sizes n) 0%Z).
 Proof. exact uncapped_exact. Qed.
 Print Assumptions C20_uncapped_exact_steps.
+
+(* THE PROPERTY IN TERMS OF THE SAME TREE'S EXACT FIGURES (Net.v, C03's model): for a complete
+   tree t = Node l r over the network and ANY children-first order of its internal nodes
+   (ExecOrderFacts.valid_order: what ContractionTree.traverse(order) produces for dfs, surface
+   order or any callable), with the (p, l, r) triples of that order fed to
+   compressed_contract_stats, no repeated / dangling index, dimensions >= 1, an output made of
+   distinct indices of the network and a cap that never truncates:
+     flops == total_flops n [] t,
+     write == total input size + total_write n [] t,
+     max   == max(largest input, max_size n [] t),
+   and every step names two distinct live nodes (ids_ok is DERIVED here, not assumed). *)
+Theorem C20_uncapped_eq_exact_same_tree : forall n, (forall t0, In t0 (inputs n) -> NoDup t0) ->
+  forall l r, Permutation (leaves (Node l r)) (seq 0 (NN n)) ->
+  NoDup (output n) -> incl (output n) (concat (inputs n)) ->
+  forall chi late order, valid_order (Node l r) order ->
+  nodangling n -> (forall x, (1 <= zget x (szd n))%Z) -> (size_of (szd n) (universe n) <= chi)%Z ->
+  let plr := plr_of_list (map snd order) in
+  let tr := cs_tr (ccs_run chi late n plr) in
+  ids_ok chi late n plr = true /\
+  t_flops tr = total_flops n [] (Node l r) /\
+  t_write tr = (zsum (input_sizes n) + total_write n [] (Node l r))%Z /\
+  t_max tr = Z.max (zmax_list (input_sizes n) 0%Z) (max_size n [] (Node l r)).
+Proof. exact uncapped_exact_tree. Qed.
+Print Assumptions C20_uncapped_eq_exact_same_tree.
+
+(* the depth-first order (the model's plr_of t) is one such order *)
+Theorem C20_uncapped_eq_exact_dfs : forall n, (forall t0, In t0 (inputs n) -> NoDup t0) ->
+  forall l r, Permutation (leaves (Node l r)) (seq 0 (NN n)) ->
+  NoDup (output n) -> incl (output n) (concat (inputs n)) ->
+  forall chi late, nodangling n -> (forall x, (1 <= zget x (szd n))%Z) -> (size_of (szd n) (universe n) <= chi)%Z ->
+  let tr := cs_tr (ccs_run chi late n (plr_of (Node l r))) in
+  t_flops tr = total_flops n [] (Node l r) /\
+  t_write tr = (zsum (input_sizes n) + total_write n [] (Node l r))%Z /\
+  t_max tr = Z.max (zmax_list (input_sizes n) 0%Z) (max_size n [] (Node l r)).
+Proof.
+  intros n HN l r Hc NDo Ho chi late Hd Hp Hchi.
+  assert (ND : NoDup (leaves (Node l r))) by (apply (Permutation_NoDup (Permutation_sym Hc)), seq_NoDup).
+  pose proof (uncapped_exact_tree n HN l r Hc NDo Ho chi late (traverse_dfs (Node l r)) (traverse_dfs_valid l r ND) Hd Hp Hchi) as H.
+  cbn zeta in H. rewrite traverse_dfs_snd, <- plr_of_post_sub in H. apply H.
+Qed.
+Print Assumptions C20_uncapped_eq_exact_dfs.
 
 (* the two operations that carry the invariant *)
 Theorem C20_contract_keeps_simulation : forall n g F rep i j ti tj, Sim n g F rep -> i <> j ->
